@@ -1,0 +1,14 @@
+//go:build verif
+
+package swamp
+
+import "github.com/hydraide/hydraide/app/core/hydra/swamp/vigil"
+
+// VigilCountC26 returns the active-vigil counter of the swamp. Verification only.
+func VigilCountC26(s Swamp) int64 {
+	sw, ok := s.(*swamp)
+	if !ok {
+		return -1 << 40
+	}
+	return vigil.CountC26(sw.Vigil)
+}
